@@ -55,14 +55,12 @@ func (t *MemTable) Delete(key []byte, seqNum uint64) (full bool) {
 	return t.size > uint64(t.memSize)
 }
 
-// ScanPrefix returns all entries matching the prefix in ascending order. This
-// method transparently omits deleted entries.
+// ScanPrefix returns all entries matching the prefix in ascending order. Deleted
+// entries are included: a delete has to hide older versions of the key held by
+// other tables when the scans are merged; the caller drops them after the merge.
 func (t *MemTable) ScanPrefix(prefix []byte) iter.Seq[kv.Entry] {
 	return func(yield func(kv.Entry) bool) {
 		for node := range t.zt.AscendPrefix(prefix) {
-			if isDeleteOp(node) {
-				continue
-			}
 			if !yield(newEntryFromNode(node)) {
 				return
 			}
